@@ -50,6 +50,36 @@ Fixpoint rebinds (fl : list stage) : list string :=
   | _ :: fl' => rebinds fl'
   end.
 
+(* Which file does the resumed run advertise (autosave to, and remove at the end)?  [SLoad] installs the
+   path RECORDED in the pickle by the interrupted run; [SRebind "autosave_file"] (the translator only
+   accepts `impl.autosave_file = autosave_file`, the argument of resume) installs the path GIVEN to
+   resume; [SRun] starts the run with whatever is installed then. *)
+Section AdvFile.
+Variable P : Type.
+Fixpoint adv_at_run (fl : list stage) (cur : option P) (given recorded : P) : option P :=
+  match fl with
+  | [] => None                                   (* the run is never started *)
+  | SRun :: _ => cur
+  | SLoad :: fl' => adv_at_run fl' (Some recorded) given recorded
+  | SRebind f :: fl' =>
+      if String.eqb f "autosave_file" then adv_at_run fl' (Some given) given recorded
+      else adv_at_run fl' cur given recorded
+  | _ :: fl' => adv_at_run fl' cur given recorded
+  end.
+End AdvFile.
+
+(* decidable: between the load and the run the flow rebinds autosave_file (to the given path) *)
+Fixpoint file_rebound_from (fl : list stage) (seen : bool) : bool :=
+  match fl with
+  | [] => false
+  | SRun :: _ => seen
+  | SLoad :: fl' => file_rebound_from fl' false
+  | SRebind f :: fl' => file_rebound_from fl' (String.eqb f "autosave_file" || seen)
+  | _ :: fl' => file_rebound_from fl' seen
+  end.
+
+Definition file_rebound (fl : list stage) : bool := file_rebound_from fl false.
+
 (* fields whose pickle round trip is accepted as a premise (validated by the real crash/resume runs) *)
 Definition roundtrip_ok : list string := ["config"; "results"; "state"]%string.
 
